@@ -16,6 +16,8 @@ def overfull_possible(case, fail):
     the Hare quota or with SequentialRCV's full-weight transfers (under Droop with a fractional
     transfer the tallies cannot support it)."""
     rule = case.get("rule", "STV")
+    if rule == "Alaska":
+        return bool(case["cfg"].get("simultaneous", True)) and case["cfg"].get("quota", "droop") == "hare"
     sim = case.get("simultaneous", case.get("cfg", {}).get("simultaneous", True))
     quota = case.get("quota", case.get("cfg", {}).get("quota", "droop"))
     return bool(sim) and (quota == "hare" or rule == "SequentialRCV")
@@ -24,4 +26,32 @@ def overfull_possible(case, fail):
 def hare_threshold_zero(case, fail):
     quota = case.get("quota", case.get("cfg", {}).get("quota", "droop"))
     m = case.get("m", case.get("cfg", {}).get("m", 1))
+    if case.get("rule") == "Alaska":
+        # the stage total is read from the records by the check (subcheck name); here: Hare only
+        return quota == "hare"
     return quota == "hare" and _total(case) < m
+
+
+def _mentioned(case):
+    return {c for b in case["ballots"] for p in (b.get("r") or []) for c in p}
+
+
+def dictator_support_exhausted(case, fail):
+    """RandomDictator / BoostedRandomDictator: every round elects a candidate some ballot lists,
+    so all ballots are exhausted before m seats are filled iff m exceeds the number of
+    candidates that appear on any ballot."""
+    return case.get("rule") in ("RandomDictator", "BoostedRandomDictator") and \
+        case["cfg"]["m"] > len(_mentioned(case))
+
+
+def veto_supported_le_m(case, fail):
+    """PluralityVeto: candidates with first-place support number <= m < n."""
+    if case.get("rule") != "PluralityVeto":
+        return False
+    first = {c for b in case["ballots"] for c in b["r"][0]}
+    m, n = case["cfg"]["m"], len(case["cands"])
+    return len(first) <= m < n
+
+
+def is_alaska(case, fail):
+    return case.get("rule") == "Alaska"
